@@ -6,6 +6,7 @@ import (
 
 	lib "github.com/corazawaf/libinjection-go"
 
+	"verif/alpha"
 	"verif/fw"
 	"verif/refhtml"
 )
@@ -270,6 +271,44 @@ func init() {
 					}
 					w.Traces(1)
 					w.NonTrivial()
+				}},
+			{Name: "long-leading-junk", Space: "4 schemes x {lower, UPPER} x a run of k strippable units in front of the scheme (space, TAB, 0x01, 0x7F, 0xFF, NUL, LF, &#32; &#x09; &#0;) or of k ignorable units after its second letter (NUL, LF, &#0; &#10;), for every k in 0..100 and -2..+2 around 128 .. 4096 and around every new integer constant: URL predicate, and the public IsXSS in 3 quotings for every URL attribute at the boundary counts", Share: 1,
+				Run: func(w *fw.W) {
+					var ks []int
+					for k := 0; k <= 100; k++ {
+						ks = append(ks, k)
+					}
+					cs := []int{128, 256, 512, 1024, 4096}
+					for _, n := range alpha.NewInts() {
+						if n > 100 && n <= 1<<16 {
+							cs = append(cs, n)
+						}
+					}
+					for _, c := range cs {
+						for d := -2; d <= 2; d++ {
+							ks = append(ks, c+d)
+						}
+					}
+					lead := []string{" ", "\t", "\x01", "\x7f", "\xff", "\x00", "\n", "&#32;", "&#x09;", "&#0;"}
+					inner := []string{"\x00", "\n", "&#0;", "&#10;"}
+					type it struct{ v, aux string }
+					var items []it
+					for _, sc0 := range urlSchemes {
+						for _, sc := range []string{sc0, asciiUpper(sc0)} {
+							for _, k := range ks {
+								for _, u := range lead {
+									items = append(items, it{strings.Repeat(u, k) + sc + "//x(1)", fmt.Sprintf("%s after %d x %q", sc, k, u)})
+								}
+								for _, u := range inner {
+									items = append(items, it{sc[:2] + strings.Repeat(u, k) + sc[2:] + "//x(1)", fmt.Sprintf("%s with %d x %q inside", sc, k, u)})
+								}
+							}
+						}
+					}
+					w.Each(len(items), func(i int) { w.Item(items[i].v, items[i].aux) })
+				}, Eval: func(w *fw.W, val, aux string) {
+					evalC19Match(w, val, aux)
+					evalC19XSS(w, val, aux)
 				}},
 			{Name: "matcher-encodings", Space: "schemes x per-byte encodings x leading junk x NUL/LF insertion, URL predicate", Share: 4,
 				Run: func(w *fw.W) {
